@@ -12,55 +12,51 @@ open TokenRing
 
 /-! ## Field projections of the bookkeeping helpers -/
 
-section proj
-variable (s : Station) (now : Int) (n : Nat)
 
-@[simp] theorem gol_st : (getOrInsertLast s now).1.st = s.st := (core_getOrInsertLast s now).2.2.2.2.1
-@[simp] theorem gol_ring : (getOrInsertLast s now).1.ring = s.ring := (core_getOrInsertLast s now).2.1
-@[simp] theorem gol_p : (getOrInsertLast s now).1.p = s.p := (core_getOrInsertLast s now).1
-@[simp] theorem gol_online : (getOrInsertLast s now).1.online = s.online := (core_getOrInsertLast s now).2.2.1
-@[simp] theorem gol_gap : (getOrInsertLast s now).1.gap = s.gap := (core_getOrInsertLast s now).2.2.2.1
-@[simp] theorem gol_nextApp : (getOrInsertLast s now).1.nextApp = s.nextApp := (core_getOrInsertLast s now).2.2.2.2.2
+@[local simp] theorem gol_st (s : Station) (now : Int) : (getOrInsertLast s now).1.st = s.st := (core_getOrInsertLast s now).2.2.2.2.1
+@[local simp] theorem gol_ring (s : Station) (now : Int) : (getOrInsertLast s now).1.ring = s.ring := (core_getOrInsertLast s now).2.1
+@[local simp] theorem gol_p (s : Station) (now : Int) : (getOrInsertLast s now).1.p = s.p := (core_getOrInsertLast s now).1
+@[local simp] theorem gol_online (s : Station) (now : Int) : (getOrInsertLast s now).1.online = s.online := (core_getOrInsertLast s now).2.2.1
+@[local simp] theorem gol_gap (s : Station) (now : Int) : (getOrInsertLast s now).1.gap = s.gap := (core_getOrInsertLast s now).2.2.2.1
+@[local simp] theorem gol_nextApp (s : Station) (now : Int) : (getOrInsertLast s now).1.nextApp = s.nextApp := (core_getOrInsertLast s now).2.2.2.2.2
 
-@[simp] theorem waitSync_fst : (waitSyncPause s now).1 = (getOrInsertLast s now).1 := rfl
-@[simp] theorem checkSlot_fst : (checkSlotExpired s now).1 = (getOrInsertLast s now).1 := rfl
+@[local simp] theorem waitSync_fst (s : Station) (now : Int) : (waitSyncPause s now).1 = (getOrInsertLast s now).1 := rfl
+@[local simp] theorem checkSlot_fst (s : Station) (now : Int) : (checkSlotExpired s now).1 = (getOrInsertLast s now).1 := rfl
 
-@[simp] theorem markRx_st : (markRx s now).st = s.st := by simp [markRx, markBusActivity]
-@[simp] theorem markRx_ring : (markRx s now).ring = s.ring := by simp [markRx, markBusActivity]
-@[simp] theorem markRx_p : (markRx s now).p = s.p := by simp [markRx, markBusActivity]
-@[simp] theorem markRx_online : (markRx s now).online = s.online := by simp [markRx, markBusActivity]
-@[simp] theorem markRx_gap : (markRx s now).gap = s.gap := by simp [markRx, markBusActivity]
-@[simp] theorem markRx_nextApp : (markRx s now).nextApp = s.nextApp := by simp [markRx, markBusActivity]
+@[local simp] theorem markRx_st (s : Station) (now : Int) : (markRx s now).st = s.st := by simp [markRx, markBusActivity]
+@[local simp] theorem markRx_ring (s : Station) (now : Int) : (markRx s now).ring = s.ring := by simp [markRx, markBusActivity]
+@[local simp] theorem markRx_p (s : Station) (now : Int) : (markRx s now).p = s.p := by simp [markRx, markBusActivity]
+@[local simp] theorem markRx_online (s : Station) (now : Int) : (markRx s now).online = s.online := by simp [markRx, markBusActivity]
+@[local simp] theorem markRx_gap (s : Station) (now : Int) : (markRx s now).gap = s.gap := by simp [markRx, markBusActivity]
+@[local simp] theorem markRx_nextApp (s : Station) (now : Int) : (markRx s now).nextApp = s.nextApp := by simp [markRx, markBusActivity]
 
-@[simp] theorem markTx_st : (markTx s now n).st = s.st := by simp [markTx]
-@[simp] theorem markTx_ring : (markTx s now n).ring = s.ring := by simp [markTx]
-@[simp] theorem markTx_p : (markTx s now n).p = s.p := by simp [markTx]
-@[simp] theorem markTx_online : (markTx s now n).online = s.online := by simp [markTx]
-@[simp] theorem markTx_gap : (markTx s now n).gap = s.gap := by simp [markTx]
-@[simp] theorem markTx_nextApp : (markTx s now n).nextApp = s.nextApp := by simp [markTx]
+@[local simp] theorem markTx_st (s : Station) (now : Int) (n : Nat) : (markTx s now n).st = s.st := by simp [markTx]
+@[local simp] theorem markTx_ring (s : Station) (now : Int) (n : Nat) : (markTx s now n).ring = s.ring := by simp [markTx]
+@[local simp] theorem markTx_p (s : Station) (now : Int) (n : Nat) : (markTx s now n).p = s.p := by simp [markTx]
+@[local simp] theorem markTx_online (s : Station) (now : Int) (n : Nat) : (markTx s now n).online = s.online := by simp [markTx]
+@[local simp] theorem markTx_gap (s : Station) (now : Int) (n : Nat) : (markTx s now n).gap = s.gap := by simp [markTx]
+@[local simp] theorem markTx_nextApp (s : Station) (now : Int) (n : Nat) : (markTx s now n).nextApp = s.nextApp := by simp [markTx]
 
-@[simp] theorem markBA_st : (markBusActivity s now).st = s.st := by simp [markBusActivity]
-@[simp] theorem markBA_ring : (markBusActivity s now).ring = s.ring := by simp [markBusActivity]
-@[simp] theorem markBA_p : (markBusActivity s now).p = s.p := by simp [markBusActivity]
-@[simp] theorem markBA_online : (markBusActivity s now).online = s.online := by simp [markBusActivity]
-@[simp] theorem markBA_nextApp : (markBusActivity s now).nextApp = s.nextApp := by simp [markBusActivity]
+@[local simp] theorem markBA_st (s : Station) (now : Int) : (markBusActivity s now).st = s.st := by simp [markBusActivity]
+@[local simp] theorem markBA_ring (s : Station) (now : Int) : (markBusActivity s now).ring = s.ring := by simp [markBusActivity]
+@[local simp] theorem markBA_p (s : Station) (now : Int) : (markBusActivity s now).p = s.p := by simp [markBusActivity]
+@[local simp] theorem markBA_online (s : Station) (now : Int) : (markBusActivity s now).online = s.online := by simp [markBusActivity]
+@[local simp] theorem markBA_nextApp (s : Station) (now : Int) : (markBusActivity s now).nextApp = s.nextApp := by simp [markBusActivity]
 
-theorem coreEq_checkBA : CoreEq (checkBusActivity s now n) s := by
+theorem coreEq_checkBA (s : Station) (now : Int) (n : Nat) : CoreEq (checkBusActivity s now n) s := by
   unfold checkBusActivity; split <;> simp [CoreEq, markBusActivity]
-@[simp] theorem checkBA_st : (checkBusActivity s now n).st = s.st := (coreEq_checkBA s now n).2.2.2.2.1
-@[simp] theorem checkBA_ring : (checkBusActivity s now n).ring = s.ring := (coreEq_checkBA s now n).2.1
-@[simp] theorem checkBA_p : (checkBusActivity s now n).p = s.p := (coreEq_checkBA s now n).1
-@[simp] theorem checkBA_online : (checkBusActivity s now n).online = s.online := (coreEq_checkBA s now n).2.2.1
-@[simp] theorem checkBA_nextApp : (checkBusActivity s now n).nextApp = s.nextApp := (coreEq_checkBA s now n).2.2.2.2.2
+@[local simp] theorem checkBA_st (s : Station) (now : Int) (n : Nat) : (checkBusActivity s now n).st = s.st := (coreEq_checkBA s now n).2.2.2.2.1
+@[local simp] theorem checkBA_ring (s : Station) (now : Int) (n : Nat) : (checkBusActivity s now n).ring = s.ring := (coreEq_checkBA s now n).2.1
+@[local simp] theorem checkBA_p (s : Station) (now : Int) (n : Nat) : (checkBusActivity s now n).p = s.p := (coreEq_checkBA s now n).1
+@[local simp] theorem checkBA_online (s : Station) (now : Int) (n : Nat) : (checkBusActivity s now n).online = s.online := (coreEq_checkBA s now n).2.2.1
+@[local simp] theorem checkBA_nextApp (s : Station) (now : Int) (n : Nat) : (checkBusActivity s now n).nextApp = s.nextApp := (coreEq_checkBA s now n).2.2.2.2.2
 
-variable (d : UseData)
-@[simp] theorem hold_st : (holdUpdate s d).st = s.st := (coreEq_holdUpdate s d).2.2.2.2.1
-@[simp] theorem hold_ring : (holdUpdate s d).ring = s.ring := (coreEq_holdUpdate s d).2.1
-@[simp] theorem hold_p : (holdUpdate s d).p = s.p := (coreEq_holdUpdate s d).1
-@[simp] theorem hold_online : (holdUpdate s d).online = s.online := (coreEq_holdUpdate s d).2.2.1
-@[simp] theorem hold_nextApp : (holdUpdate s d).nextApp = s.nextApp := (coreEq_holdUpdate s d).2.2.2.2.2
+@[local simp] theorem hold_st (s : Station) (d : UseData) : (holdUpdate s d).st = s.st := (coreEq_holdUpdate s d).2.2.2.2.1
+@[local simp] theorem hold_ring (s : Station) (d : UseData) : (holdUpdate s d).ring = s.ring := (coreEq_holdUpdate s d).2.1
+@[local simp] theorem hold_p (s : Station) (d : UseData) : (holdUpdate s d).p = s.p := (coreEq_holdUpdate s d).1
+@[local simp] theorem hold_online (s : Station) (d : UseData) : (holdUpdate s d).online = s.online := (coreEq_holdUpdate s d).2.2.1
+@[local simp] theorem hold_nextApp (s : Station) (d : UseData) : (holdUpdate s d).nextApp = s.nextApp := (coreEq_holdUpdate s d).2.2.2.2.2
 
-end proj
 
 /-! ## Primitive steps -/
 
@@ -1281,10 +1277,10 @@ theorem wake_cases (s : Station) :
   · rename_i h; exact .inr ⟨rfl, .inr h⟩
   · exact .inl rfl
 
-@[simp] theorem wake_p (s : Station) : s.wake.p = s.p := by rcases wake_cases s with h | ⟨h, -⟩ <;> rw [h]
-@[simp] theorem wake_ring (s : Station) : s.wake.ring = s.ring := by rcases wake_cases s with h | ⟨h, -⟩ <;> rw [h]
-@[simp] theorem wake_online (s : Station) : s.wake.online = s.online := by rcases wake_cases s with h | ⟨h, -⟩ <;> rw [h]
-@[simp] theorem wake_nextApp (s : Station) : s.wake.nextApp = s.nextApp := by rcases wake_cases s with h | ⟨h, -⟩ <;> rw [h]
+@[local simp] theorem wake_p (s : Station) : s.wake.p = s.p := by rcases wake_cases s with h | ⟨h, -⟩ <;> rw [h]
+@[local simp] theorem wake_ring (s : Station) : s.wake.ring = s.ring := by rcases wake_cases s with h | ⟨h, -⟩ <;> rw [h]
+@[local simp] theorem wake_online (s : Station) : s.wake.online = s.online := by rcases wake_cases s with h | ⟨h, -⟩ <;> rw [h]
+@[local simp] theorem wake_nextApp (s : Station) : s.wake.nextApp = s.nextApp := by rcases wake_cases s with h | ⟨h, -⟩ <;> rw [h]
 
 /-- The application callbacks of one poll, by start state: none at all unless the poll starts in
 `UseToken` (only `transmit_telegram` calls) or in `AwaitDataResponse` (the admitted reply alone, or the
@@ -1373,5 +1369,112 @@ theorem poll_calls (s : Station) (apps : Apps) (now : Int) (phy : Bool) (rx : By
       refine .inl (quiet rfl hq ?_)
       intro a d h
       rcases hs with ⟨-, _, _, h'⟩ | ⟨-, h'⟩ | ⟨-, h', -⟩ | ⟨-, h' | h'⟩ <;> rw [h'] at h <;> cases h
+
+
+/-- Parameters and the number of applications never change in a poll. -/
+theorem poll_frame (s : Station) (apps : Apps) (now : Int) (phy : Bool) (rx : Bytes) (c' : Ctx)
+    (h : s.poll apps now phy rx = .ok c') : c'.s.p = s.p ∧ c'.apps.length = apps.length := by
+  rcases poll_cases s apps now phy rx c' h with ⟨hoff, hst, rfl⟩ | ⟨hon, rfl⟩ | ⟨hon, hd⟩
+  · exact ⟨rfl, rfl⟩
+  · exact ⟨by simp, rfl⟩
+  · have quiet : ∀ {c0 : Ctx}, c0.s.p = s.p → c0.apps = apps → Quiet c0 c' → c'.s.p = s.p ∧ c'.apps.length = apps.length := by
+      intro c0 e1 e2 hq
+      exact ⟨hq.p.trans e1, by rw [hq.apps, e2]⟩
+    rcases wake_cases s with hw | ⟨hw, -⟩
+    · rw [hw] at hd
+      cases hst : s.st with
+      | offline => exact absurd (by simpa using hst) hd.awake.1
+      | passiveIdle => exact absurd (by simpa using hst) hd.awake.2
+      | listenToken sr coll => exact quiet (by simp) rfl (hd.listen sr coll (by simpa using hst)).1
+      | activeIdle sr np coll => exact quiet (by simp) rfl (hd.idle sr np coll (by simpa using hst)).1
+      | claimToken step => exact quiet (by simp) rfl (hd.claim step (by simpa using hst)).1
+      | passToken g att => exact quiet (by simp) rfl (hd.pass g att (by simpa using hst)).1
+      | checkTokenPass att => exact quiet (by simp) rfl (hd.check att (by simpa using hst)).1
+      | awaitStatus a0 => exact quiet (by simp) rfl (hd.status a0 (by simpa using hst)).1
+      | useToken d fcd =>
+        obtain ⟨new, -, -, -, hp, -, hl, -⟩ := hd.use d fcd (by simpa using hst)
+        exact ⟨by simpa using hp, by simpa using hl⟩
+      | awaitData a d =>
+        obtain ⟨-, hp, -, hl, -⟩ := hd.await a d (by simpa using hst)
+        exact ⟨by simpa using hp, by simpa using hl⟩
+    · rw [hw] at hd
+      exact quiet (by simp) rfl (hd.listen none 0 (by simp)).1
+
+/-! ## Call sequences with their callback log -/
+
+namespace C05
+
+/-- One API call together with the application callbacks it made. -/
+def World.stepLog (w : World) : ApiCall → Option (World × List AppCall)
+  | .poll now phyTx arrived =>
+    match w.s.poll w.apps now phyTx (w.rx ++ arrived) with
+    | .ok c => some ({ s := c.s, apps := c.apps, rx := c.rx }, c.calls)
+    | .panic _ => none
+  | .setOnline => some ({ w with s := w.s.setOnline }, [])
+  | .setOffline => some ({ w with s := w.s.setOffline }, [])
+
+/-- Run a call sequence and concatenate the callbacks of all calls (the application call log). -/
+def World.runLog (w : World) : List ApiCall → Option (World × List AppCall)
+  | [] => some (w, [])
+  | a :: rest =>
+    match w.stepLog a with
+    | some (w', l1) =>
+      match w'.runLog rest with
+      | some (w'', l2) => some (w'', l1 ++ l2)
+      | none => none
+    | none => none
+
+/-- `stepLog` is `step` plus the log. -/
+theorem stepLog_of_step {w w' : World} {a : ApiCall} (h : w.step a = some w') : ∃ l, w.stepLog a = some (w', l) := by
+  cases a with
+  | poll now phy arrived =>
+    simp only [World.step] at h
+    simp only [World.stepLog]
+    split at h
+    · rename_i c hc
+      cases h
+      exact ⟨c.calls, by rw [hc]⟩
+    · cases h
+  | setOnline => cases h; exact ⟨[], rfl⟩
+  | setOffline => cases h; exact ⟨[], rfl⟩
+
+theorem step_of_stepLog {w w' : World} {a : ApiCall} {l : List AppCall} (h : w.stepLog a = some (w', l)) : w.step a = some w' := by
+  cases a with
+  | poll now phy arrived =>
+    simp only [World.stepLog] at h
+    simp only [World.step]
+    split at h
+    · rename_i c hc
+      cases h
+      rw [hc]
+    · cases h
+  | setOnline => cases h; rfl
+  | setOffline => cases h; rfl
+
+/-- Under the station invariant the logged run never fails either. -/
+theorem runLog_total : ∀ (calls : List ApiCall) (w : World), Inv w.s w.apps →
+    ∃ w' log, w.runLog calls = some (w', log) ∧ Inv w'.s w'.apps := by
+  intro calls
+  induction calls with
+  | nil => intro w hw; exact ⟨w, [], rfl, hw⟩
+  | cons a rest ih =>
+    intro w hw
+    obtain ⟨w1, h1, hi1, -⟩ := inv_step w a hw
+    obtain ⟨l1, hl1⟩ := stepLog_of_step h1
+    obtain ⟨w2, l2, h2, hi2⟩ := ih w1 hi1
+    exact ⟨w2, l1 ++ l2, by simp only [World.runLog, hl1, h2], hi2⟩
+
+/-- Every state reached by a call sequence from a fresh station satisfies the invariant, and the next
+call does not panic. -/
+theorem reach_step (p : Params) (apps : Apps) (h1 : p.address < p.hsa) (h2 : p.hsa ≤ 126) (hs : ScriptsOk apps)
+    (pre : List ApiCall) (a : ApiCall) :
+    ∃ w w' l, World.run { s := Station.new p, apps := apps, rx := [] } pre = some w ∧ Inv w.s w.apps ∧
+      w.stepLog a = some (w', l) := by
+  obtain ⟨w, hw, hi⟩ := poll_never_panics p apps h1 h2 hs pre
+  obtain ⟨w', hw', -, -⟩ := inv_step w a hi
+  obtain ⟨l, hl⟩ := stepLog_of_step hw'
+  exact ⟨w, w', l, hw, hi, hl⟩
+
+end C05
 
 end PV
